@@ -13,7 +13,7 @@ pub fn maker(cfg: &Cfg, prop: Prop) -> Maker<MeshSys> {
 /// (cfg, bfs depth, dfs-companion depth)
 pub fn plan(ctx: &Ctx) -> Vec<(Cfg, usize, usize)> {
     let mut v = Vec::new();
-    let c = |roles, mesh, start, seed| Cfg { roles, mesh, start, seed };
+    let c = |roles: u8, mesh: u8, start: u8, seed: u64| Cfg { roles, mesh, start, seed, other: ((roles + mesh + start) % 3 + (seed / 11) as u8 + 2) % 3 };
     if ctx.quick() {
         for (roles, mesh) in [(0u8, 1u8), (0, 2), (1, 2), (2, 3)] {
             v.push((c(roles, mesh, 1, 11), 3, 2));
@@ -21,6 +21,8 @@ pub fn plan(ctx: &Ctx) -> Vec<(Cfg, usize, usize)> {
         v.push((c(0, 2, 0, 11), 4, 2));
         // prepared state "mesh_n_low inbound members, outbound quota unmet"
         v.push((c(0, 3, 2, 11), 3, 2));
+        // prepared state "peers subscribed, node not" (publishes fill the fanout; JOIN starts from it)
+        v.push((c(0, 2, 3, 11), 3, 2));
     } else {
         for seed in [11u64, 22, 33, 44] {
             for roles in [0u8, 1, 2] {
@@ -32,6 +34,11 @@ pub fn plan(ctx: &Ctx) -> Vec<(Cfg, usize, usize)> {
         for seed in [11u64, 22] {
             for roles in [0u8, 2] {
                 v.push((c(roles, 3, 2, seed), 4, 3));
+            }
+        }
+        for seed in [11u64, 22] {
+            for (roles, mesh) in [(0u8, 2u8), (0, 3), (2, 1)] {
+                v.push((c(roles, mesh, 3, seed), 4, 3));
             }
         }
         v.push((c(0, 2, 1, 11), 5, 3));
@@ -86,7 +93,7 @@ pub fn run(ctx: &Ctx, prop: Prop, guards: &[&str]) -> Outcome {
             out.machinery(format!("vacuity guard: counter '{g}' is zero — the situation the oracle judges never occurred"));
         }
     }
-    out.notes.push(format!("configurations (roles, mesh params, start, seed) x depth: {:?}", plan.iter().map(|(c, d, dd)| format!("r{}m{}s{}e{}:d{}/{}", c.roles, c.mesh, c.start, c.seed, d, dd)).collect::<Vec<_>>()));
+    out.notes.push(format!("configurations (roles, mesh params, start, seed, third-topic name) x depth: {:?}", plan.iter().map(|(c, d, dd)| format!("r{}m{}s{}e{}o{}:d{}/{}", c.roles, c.mesh, c.start, c.seed, c.other, d, dd)).collect::<Vec<_>>()));
     out.notes.push("state counts are summed over 16 worker stripes (states first reached in two stripes are counted in both); distinct_nontrivial is a set union".into());
     out
 }
